@@ -3,7 +3,7 @@ from vlib.gentie import gentie_step
 
 CHECK = Check(
     "C13",
-    props_modules=["OW.Props.C13"],
+    props_modules=["OW.Props.C13", "OW.Props.Rounded.C13"],
     # arithmetic only (+ - * / comparisons, math.Min/Max/Abs) → bit-exact correspondence
     families=[Family("K", rtol=None, args=["models=Storage", "prop=C13", "n=300"], label="K-storage"),
               # "per-cell table lengths": several cells with tables of different length in one vectorised Run, each cell
@@ -15,6 +15,7 @@ CHECK = Check(
     pre_steps=[gentie_step],
     level="proof",
     trusted=[
+        "OW.Props.Rounded.C13: the INEQUALITY clauses are also proved over rounded arithmetic — the same kernel definitions instantiated at RNum R (OW/Proofs/Rounded.lean: every operation = exact real result followed by a rounding R.rnd that is monotone, odd, idempotent and fixes 0; literals rounded once; min/max/comparisons exact), for EVERY such R. Interpretation (not a Lean term): IEEE-754 binary64 round-to-nearest (or toward zero) on computations without overflow/NaN is one such R; math.Pow/Exp/Log are idealised as correctly rounded (only their sign / range is used). Two concrete non-identity instances (grid truncation, grid rounding away from zero) are constructed as witnesses",
         "hand-written Lean model OW/Kernels/Storage.lean of models/storage/storage.go (cappedPiecewise, releaseRate, "
         "releaseRatesCloseEnough, the adaptive sub-step controller as two fuelled recursions, spill, "
         "checkStorageConfiguration's early return, the wrapper's per-cell table slicing), as repaired by "
@@ -29,6 +30,7 @@ CHECK = Check(
         "within the release-rule envelope over the volumes reachable in the step, no spill when full supply is unreachable)",
     ],
     assumptions=[
+        "rounded theorems (OW.Props.Rounded.C13): initial volume >= 0 and full-supply volume >= 0; statements are about runs that return",
         "all theorems: for runs of the model that return .ok (a Go panic — drawing down below zero at the 6 s floor, a "
         "single-knot table — is .error and is reproduced as such by the correspondence)",
         "storage_balance: Δt > 0; sub_steps_sum: Δt ≥ 0; volume_nonneg: initial volume ≥ 0 and full-supply volume ≥ 0",
